@@ -10,8 +10,10 @@ package main
 
 import (
 	"fmt"
+	"go/token"
 	"go/types"
 	"sort"
+	"strings"
 
 	"golang.org/x/tools/go/ssa"
 )
@@ -311,6 +313,12 @@ func (p *Program) neverNilGlobal(obj types.Object) bool {
 	if obj == nil {
 		return false
 	}
+	// exported error sentinels of libraries (io.EOF, io.ErrUnexpectedEOF, lz4.ErrInvalidSourceShortBuffer, …)
+	if v, ok := obj.(*types.Var); ok && v.Pkg() != nil && !strings.HasPrefix(v.Pkg().Path(), pikeMod) && v.Exported() && v.Parent() == v.Pkg().Scope() {
+		if types.Identical(v.Type(), types.Universe.Lookup("error").Type()) && (strings.HasPrefix(v.Name(), "Err") || v.Name() == "EOF") {
+			return true
+		}
+	}
 	if neverNilMemo == nil || neverNilFor != p {
 		neverNilFor = p
 		neverNilMemo = map[types.Object]bool{}
@@ -354,4 +362,244 @@ func (p *Program) neverNilGlobal(obj types.Object) bool {
 func (p *Program) mods(f *ssa.Function) *modSummary {
 	p.computeMods()
 	return modCache[f]
+}
+
+// ---------------------------------------------------------------- constant tables
+
+// constAggregate: g is a package-level slice or array of pike that is filled
+// once, in its package initialiser, from a composite literal of constants and
+// other package-level variables, and that no pike function writes to, reslices,
+// appends to or hands to a callee afterwards. Its elements are then known.
+type constAgg struct {
+	elems []ssa.Value // constants or loads of globals, by index
+	array bool        // the global is the array itself (not a slice of a hidden array)
+}
+
+var constAggMemo map[*ssa.Global]*constAgg
+var constAggFor *Program
+
+func (p *Program) constAggregate(obj types.Object) *constAgg {
+	if constAggMemo == nil || constAggFor != p {
+		constAggFor = p
+		constAggMemo = map[*ssa.Global]*constAgg{}
+		p.computeConstAggs()
+	}
+	if obj == nil {
+		return nil
+	}
+	for g, ca := range constAggMemo {
+		if g.Object() == obj {
+			return ca
+		}
+	}
+	return nil
+}
+
+func (p *Program) computeConstAggs() {
+	elemOK := func(v ssa.Value) bool {
+		switch x := v.(type) {
+		case *ssa.Const:
+			return true
+		case *ssa.UnOp:
+			_, isG := x.X.(*ssa.Global)
+			return x.Op == token.MUL && isG
+		}
+		return false
+	}
+	for _, sp := range p.SSAPkgs {
+		if !strings.HasPrefix(sp.Pkg.Path(), pikeMod) {
+			continue
+		}
+		initFn := sp.Func("init")
+		if initFn == nil {
+			continue
+		}
+		for _, m := range sp.Members {
+			g, ok := m.(*ssa.Global)
+			if !ok {
+				continue
+			}
+			elemT := types.Type(nil)
+			n := int64(-1)
+			isArray := false
+			switch u := g.Type().(*types.Pointer).Elem().Underlying().(type) {
+			case *types.Slice:
+				elemT = u.Elem()
+			case *types.Array:
+				elemT, n, isArray = u.Elem(), u.Len(), true
+			default:
+				continue
+			}
+			_ = elemT
+			elems := map[int64]ssa.Value{}
+			good := true
+			if isArray {
+				// init stores into &g[i]
+				for _, r := range usersOf(initFn, g) {
+					ia, ok := r.(*ssa.IndexAddr)
+					if !ok {
+						good = false
+						continue
+					}
+					idx, ok := ia.Index.(*ssa.Const)
+					if !ok {
+						good = false
+						continue
+					}
+					for _, r2 := range *ia.Referrers() {
+						if st, ok := r2.(*ssa.Store); ok && st.Addr == ia {
+							if !elemOK(st.Val) {
+								good = false
+							}
+							elems[idx.Int64()] = st.Val
+						}
+					}
+				}
+			} else {
+				var lit *ssa.Alloc
+				stores := 0
+				for _, r := range usersOf(initFn, g) {
+					st, ok := r.(*ssa.Store)
+					if !ok || st.Addr != g {
+						continue
+					}
+					stores++
+					sl, ok := st.Val.(*ssa.Slice)
+					if !ok || sl.Low != nil || sl.High != nil {
+						good = false
+						continue
+					}
+					lit, _ = sl.X.(*ssa.Alloc)
+				}
+				if stores != 1 || lit == nil {
+					continue
+				}
+				n = lit.Type().(*types.Pointer).Elem().Underlying().(*types.Array).Len()
+				for _, r := range *lit.Referrers() {
+					switch x := r.(type) {
+					case *ssa.IndexAddr:
+						idx, ok := x.Index.(*ssa.Const)
+						if !ok {
+							good = false
+							continue
+						}
+						for _, r2 := range *x.Referrers() {
+							st, ok := r2.(*ssa.Store)
+							if !ok || st.Addr != x || !elemOK(st.Val) {
+								good = false
+								continue
+							}
+							elems[idx.Int64()] = st.Val
+						}
+					case *ssa.Slice, *ssa.DebugRef:
+					default:
+						good = false
+					}
+				}
+			}
+			if !good || n < 0 || n > 64 || int64(len(elems)) != n {
+				continue
+			}
+			// read-only everywhere else in pike
+			for _, f := range p.allFuncs {
+				if f == initFn || !good {
+					continue
+				}
+				for _, b := range f.Blocks {
+					for _, in := range b.Instrs {
+						for _, op := range in.Operands(nil) {
+							if *op != ssa.Value(g) {
+								continue
+							}
+							switch x := in.(type) {
+							case *ssa.UnOp:
+								if !readOnlyUses(x, 0) {
+									good = false
+								}
+							case *ssa.IndexAddr:
+								if !onlyLoaded(x) {
+									good = false
+								}
+							case *ssa.DebugRef:
+							default:
+								good = false // address taken, stored to, passed on
+							}
+						}
+					}
+				}
+			}
+			if !good {
+				continue
+			}
+			ca := &constAgg{array: isArray}
+			for i := int64(0); i < n; i++ {
+				ca.elems = append(ca.elems, elems[i])
+			}
+			constAggMemo[g] = ca
+		}
+	}
+}
+
+// onlyLoaded: the element address is only ever read through.
+func onlyLoaded(ia *ssa.IndexAddr) bool {
+	if ia.Referrers() == nil {
+		return false
+	}
+	for _, r := range *ia.Referrers() {
+		switch x := r.(type) {
+		case *ssa.UnOp:
+			if x.Op != token.MUL {
+				return false
+			}
+		case *ssa.DebugRef:
+		default:
+			return false
+		}
+	}
+	return true
+}
+
+// readOnlyUses: a loaded slice/array value is only measured, indexed for reading
+// or ranged over.
+func readOnlyUses(v ssa.Value, d int) bool {
+	if v.Referrers() == nil || d > 3 {
+		return false
+	}
+	for _, r := range *v.Referrers() {
+		switch x := r.(type) {
+		case *ssa.IndexAddr:
+			if !onlyLoaded(x) {
+				return false
+			}
+		case *ssa.Index, *ssa.DebugRef, *ssa.Range:
+		case *ssa.Call:
+			b, ok := x.Call.Value.(*ssa.Builtin)
+			if !ok || (b.Name() != "len" && b.Name() != "cap") {
+				return false
+			}
+		case *ssa.Phi:
+			if !readOnlyUses(x, d+1) {
+				return false
+			}
+		default:
+			return false
+		}
+	}
+	return true
+}
+
+// usersOf: the instructions of fn that have g as an operand (globals keep no
+// referrer lists).
+func usersOf(fn *ssa.Function, g *ssa.Global) []ssa.Instruction {
+	var out []ssa.Instruction
+	for _, b := range fn.Blocks {
+		for _, in := range b.Instrs {
+			for _, op := range in.Operands(nil) {
+				if *op == ssa.Value(g) {
+					out = append(out, in)
+				}
+			}
+		}
+	}
+	return out
 }
